@@ -20,10 +20,14 @@ package path
 // the model element found is a list-key leaf
 //@ ghost lastFindExact bool
 //@ ghost lastFindKey bool
+// the path text the last model lookup and the last key-leaf check were made on (ghost)
+//@ ghost lastFindPath string
+//@ ghost lastKeyCheckPath string
 //@ func FindPathFromModel(path, rwPaths, exact) (isExact, rwPath, err)
 //@   props C12, C13, C03
 //@   safe
-//@   modifies checkFailures, lastFindExact, lastFindKey
+//@   modifies checkFailures, lastFindExact, lastFindKey, lastFindPath
+//@   assumed ensures lastFindPath == path
 // ghost bookkeeping: real code cannot touch ghost state, so these clauses are assumed at call sites
 //@   assumed ensures checkFailures == old(checkFailures) + ite(err == nil, 0, 1)
 //@   assumed ensures lastFindExact == isExact && (rwPath != nil ==> lastFindKey == rwPath.IsAKey)
@@ -37,8 +41,9 @@ package path
 //@   safe
 //@   requires rwPath != nil && val != nil
 //@   trusted
-//@   modifies checkFailures
+//@   modifies checkFailures, lastKeyCheckPath
 //@   ensures checkFailures == old(checkFailures) + ite(err == nil, 0, 1)
+//@   ensures lastKeyCheckPath == path
 //@   ensures errWF(err)
 
 // x lies strictly below p at a path-element boundary
